@@ -286,8 +286,16 @@ theorem entry_stable (cfg : Cfg) (hcl : cfg.cleanupNamesSession = false) (rid si
       · subst hj
         rw [hr] at hr'; cases hr'
         have hs : sid ≠ sid' := by intro e; subst e; exact hne ⟨rfl, rfl⟩
-        refine ⟨_, getElem?_set_eq' _ _ _ _ hr, ?_, hret⟩
-        simp only; rw [lookup_filter_ne _ _ _ hs]; exact hl
+        have hl' : lookup (r.sessions.filter (fun e => e.1 != sid')) sid = some K := by
+          rw [lookup_filter_ne _ _ _ hs]; exact hl
+        have hne' : (r.sessions.filter (fun e => e.1 != sid')).isEmpty = false := by
+          cases hf : r.sessions.filter (fun e => e.1 != sid') with
+          | nil => rw [hf] at hl'; simp [lookup] at hl'
+          | cons a b => rfl
+        refine ⟨_, getElem?_set_eq' _ _ _ _ hr, hl', ?_⟩
+        intro hc
+        simp only [hne', Bool.and_false, Bool.or_false]
+        exact hret hc
       · exact ⟨r, by simp only; rw [getElem?_set_ne' _ _ _ _ hj]; exact hr, hl, hret⟩
   | retire rid' =>
     have hj : rid' ≠ rid := fun e => hne e
@@ -407,7 +415,7 @@ theorem retired_mono (cfg : Cfg) (s : St) (e : Ev) (j : Nat) (x : Rec) (hx : s.r
     unfold closeLocked
     split
     · exact ⟨x, hx, hret⟩
-    · rename_i r hr; exact retired_set _ _ _ r _ x hr hx hret (fun h => h)
+    · rename_i r hr; exact retired_set _ _ _ r _ x hr hx hret (fun h => by simp [h])
   cases e with
   | put u i => exact ⟨x, hx, hret⟩
   | del u => exact ⟨x, hx, hret⟩
@@ -631,15 +639,15 @@ theorem c15_refused_cleanup_witness : ¬ c15_same_session_full c17Cfg := by
   revert this
   decide
 
-/-- the same defect on an EMPTY record (`CloseSession(own id)` finds `remaining == 0` and terminates after releasing
-the lock): a refused first connection (cap 0) decides to terminate, the admin raises the cap, sibling B creates its
-session in the record, the termination destroys it; C is sent to a new record -/
-theorem c15_refused_cleanup_witness_empty : ¬ c15_same_session_full c17Cfg := by
-  intro h
-  have := h [.put 7 { info2 with cap := 0 }, .getUser 7 false 10, .getSession 0 5 1 10, .refusedCleanup 0 5, .put 7 info2]
-    [.retire 0, .closeAll 0, .deleteRec 0] 0 5 2 3 10 10 2 (by decide) (by decide)
-  revert this
-  decide
+/-- the same schedule on an EMPTY record: a refused first connection (cap 0) calls `CloseSession(own id)`, which finds
+`remaining == 0`; the admin raises the cap; sibling B presents the pair.  On the tree before the C15 repair this was a
+second witness (the termination destroyed B's fresh session).  Since `CloseSession` retires the record in the section in
+which it finds it empty (`Gen.Panel.closeSessionRetiresWhenEmpty`, /repo's "stale last-session decision" fix), B is told
+the record is retired and looks the user up again — even with the old clean-up: -/
+example :
+    (getSession c17Cfg (run c17Cfg init
+      [.put 7 { info2 with cap := 0 }, .getUser 7 false 10, .getSession 0 5 1 10, .refusedCleanup 0 5, .put 7 info2]) 0 5 2 10).2
+      = .retired := by decide
 
 /-- why the repaired helper retires the record in the SAME critical section in which it finds it empty: without that
 (`cleanupRetires = false`) a refused first connection (cap 0) decides to terminate the empty record, the admin raises
